@@ -380,13 +380,22 @@ func insertIntoBlockRecord(nsBlocks, nsTxRecords mwdb.Bucket, blockKey, blockVal
 	return updateBlockRecord(nsBlocks, &blkRec.BlockMeta, hashes)
 }
 
+// RemoveUnminedConflicts removes the unmined transactions (and their unmined
+// descendants) that spend an input of the mined transaction msgTx. It is meant for
+// the transactions of a connected block that are not relevant themselves; relevant
+// ones are handled by insertMinedTx.
+func (s *TxStore) RemoveUnminedConflicts(tx mwdb.DBTransaction, msgTx *wire.MsgTx) error {
+	return s.removeDoubleSpends(tx, &TxRecord{MsgTx: *msgTx, Hash: msgTx.TxHash()})
+}
+
 func (s *TxStore) removeDoubleSpends(tx mwdb.DBTransaction, rec *TxRecord) error {
 
 	nsUnminedInputs := tx.FetchBucket(s.bucketMeta.nsUnminedInputs)
 	nsUnmined := tx.FetchBucket(s.bucketMeta.nsUnmined)
 
-	for _, rel := range rec.RelevantTxIn {
-		prevOut := &rec.MsgTx.TxIn[rel.Index].PreviousOutPoint
+	// any input, relevant or not, may be the one an unmined transaction spends too
+	for _, txIn := range rec.MsgTx.TxIn {
+		prevOut := &txIn.PreviousOutPoint
 		prevOutKey := canonicalOutPoint(&prevOut.Hash, prevOut.Index)
 
 		doubleSpendHashes := fetchUnminedInputSpendTxHashes(nsUnminedInputs, prevOutKey)
